@@ -1874,6 +1874,27 @@ def _flatten_product_loops(fn):
                 v = getattr(s, fld, None)
                 if isinstance(v, list) and v and isinstance(v[0], ast.stmt) and not isinstance(s, (ast.FunctionDef, ast.ClassDef)):
                     setattr(s, fld, block(v))
+            if isinstance(s, ast.For) and not s.orelse and isinstance(s.iter, ast.Call) and not s.iter.keywords and len(s.iter.args) >= 2 \
+                    and ((isinstance(s.iter.func, ast.Name) and s.iter.func.id == 'product') or (isinstance(s.iter.func, ast.Attribute) and s.iter.func.attr == 'product'
+                                                                                                 and isinstance(s.iter.func.value, ast.Name) and s.iter.func.value.id == 'itertools')) \
+                    and isinstance(s.target, (ast.Tuple, ast.List)) and len(s.target.elts) == len(s.iter.args) and all(isinstance(e, ast.Name) for e in s.target.elts) \
+                    and not any(isinstance(a, ast.Starred) for a in s.iter.args):
+                # for a, b in product(A, B): BODY  ->  for a in A: for b in B: BODY      (A, B effect-free and not changed by BODY; no break)
+                def calm(e):
+                    return all(not isinstance(y, ast.Call) or (isinstance(y.func, ast.Name) and y.func.id in ('range', 'len', 'reversed', 'enumerate', 'zip', 'tuple', 'list')) for y in ast.walk(e)) \
+                        and not any(isinstance(y, (ast.Lambda, ast.GeneratorExp, ast.ListComp, ast.Yield, ast.Await, ast.NamedExpr)) for y in ast.walk(e))
+                written = _store_bases(s.body) | {e.id for e in s.target.elts}
+                reads = {y.id for a in s.iter.args for y in ast.walk(a) if isinstance(y, ast.Name)}
+                shadow = any(isinstance(y, ast.Name) and y.id == 'product' and isinstance(y.ctx, ast.Store) for y in ast.walk(fn))
+                if all(calm(a) for a in s.iter.args) and not (written & reads) and not shadow and not any(isinstance(y, ast.Break) for st in s.body for y in ast.walk(st)):
+                    inner = list(s.body)
+                    for e, a in reversed(list(zip(s.target.elts, s.iter.args))):
+                        inner = [ast.For(target=ast.Name(id=e.id, ctx=ast.Store()), iter=a, body=inner, orelse=[], type_comment=None)]
+                    ast.copy_location(inner[0], s)
+                    ast.fix_missing_locations(inner[0])
+                    out.append(inner[0])
+                    changed[0] = True
+                    continue
             if isinstance(s, ast.For) and not s.orelse:
                 it, counter, tgt = s.iter, None, s.target
                 if isinstance(it, ast.Call) and isinstance(it.func, ast.Name) and it.func.id == 'enumerate' and len(it.args) == 1 and not it.keywords \
